@@ -3,7 +3,7 @@ CONSTANTS NB = 3
           NID = 2
           Wide = FALSE
           Inners = {"plain", "w", "wV", "wA", "wVA", "tq", "bloom"}
-          MaxBatch = 3
+          MaxBatch = 2
           D = 1000
           E = 30
 INVARIANTS EmitUniverse
